@@ -1,0 +1,106 @@
+//! Network-level hooks for the verification harness (feature `verif`). Add-only.
+
+use std::io::{Read, Write};
+use std::sync::{Arc, RwLock};
+
+use once_cell::sync::Lazy;
+
+use crate::network::remote::{remote_recv, remote_send};
+use crate::network::{BlockCoord, Coord, DemuxCoord, NetworkMessage, ReceiverEndpoint};
+use crate::operator::{ExchangeData, StreamElement};
+use crate::scheduler::BlockId;
+
+/// Frame one batch exactly as the multiplexer does (`remote_send`).
+pub fn frame_send<T: ExchangeData, W: Write>(
+    batch: Vec<StreamElement<T>>,
+    sender: Coord,
+    dest: Coord,
+    prev_block_id: BlockId,
+    writer: &mut W,
+) {
+    let msg = NetworkMessage::new_batch(batch, sender);
+    remote_send(msg, ReceiverEndpoint::new(dest, prev_block_id), writer, "verif");
+}
+
+/// Read one frame exactly as the demultiplexer of `(block, host, prev_block)` does
+/// (`remote_recv`): destination endpoint coord, `prev_block_id`, sender, batch.
+pub fn frame_recv<T: ExchangeData, R: Read>(
+    block_id: BlockId,
+    host_id: crate::scheduler::HostId,
+    prev_block_id: BlockId,
+    reader: &mut R,
+) -> Option<(Coord, BlockId, Coord, Vec<StreamElement<T>>)> {
+    let demux = DemuxCoord {
+        coord: BlockCoord { block_id, host_id },
+        prev_block_id,
+    };
+    remote_recv::<T, R>(demux, reader, "verif")
+        .map(|(ep, msg)| (ep.coord, ep.prev_block_id, msg.sender(), msg.into_iter().collect()))
+}
+
+/// What the observer is told about a batch crossing a link.
+#[derive(Clone, Debug)]
+pub struct LinkEvent {
+    /// true = the producer is sending, false = the consumer received
+    pub send: bool,
+    pub sender: Coord,
+    pub dest: Coord,
+    pub prev_block_id: BlockId,
+    /// one entry per element: kind (`I`,`T`,`W`,`FB`,`FAR`,`TERM`) and timestamp if any
+    pub kinds: Vec<(&'static str, Option<i64>)>,
+    /// `Debug` rendering of the batch when the observer asked for payloads
+    pub payload: Option<String>,
+}
+
+type Observer = Arc<dyn Fn(&LinkEvent) + Send + Sync>;
+
+static OBSERVER: Lazy<RwLock<Option<(Observer, bool)>>> = Lazy::new(|| RwLock::new(None));
+
+/// Install (or remove) the process-wide link observer. `with_payload` asks for the `Debug`
+/// rendering of every batch. The observer may sleep (delay injection).
+pub fn set_link_observer(obs: Option<Observer>, with_payload: bool) {
+    *OBSERVER.write().unwrap() = obs.map(|o| (o, with_payload));
+}
+
+fn kind<T>(e: &StreamElement<T>) -> (&'static str, Option<i64>) {
+    match e {
+        StreamElement::Item(_) => ("I", None),
+        #[cfg(feature = "timestamp")]
+        StreamElement::Timestamped(_, t) => ("T", Some(*t)),
+        #[cfg(feature = "timestamp")]
+        StreamElement::Watermark(t) => ("W", Some(*t)),
+        #[cfg(not(feature = "timestamp"))]
+        StreamElement::Timestamped(_, _) => ("T", None),
+        #[cfg(not(feature = "timestamp"))]
+        StreamElement::Watermark(_) => ("W", None),
+        StreamElement::FlushBatch => ("FB", None),
+        StreamElement::FlushAndRestart => ("FAR", None),
+        StreamElement::Terminate => ("TERM", None),
+    }
+}
+
+fn dispatch<T>(send: bool, endpoint: ReceiverEndpoint, msg: &NetworkMessage<T>, payload: impl FnOnce(&Vec<StreamElement<T>>) -> Option<String>) {
+    let obs = OBSERVER.read().unwrap().clone();
+    if let Some((obs, with_payload)) = obs {
+        let crate::network::NetworkData::Batch(v) = &msg.data;
+        let ev = LinkEvent {
+            send,
+            sender: msg.sender,
+            dest: endpoint.coord,
+            prev_block_id: endpoint.prev_block_id,
+            kinds: v.iter().map(kind).collect(),
+            payload: if with_payload { payload(v) } else { None },
+        };
+        obs(&ev);
+    }
+}
+
+/// Called by `NetworkSender::send` (payload rendered as JSON on request).
+pub(crate) fn observe_send<T: ExchangeData>(endpoint: ReceiverEndpoint, msg: &NetworkMessage<T>) {
+    dispatch(true, endpoint, msg, |v| serde_json::to_string(v).ok());
+}
+
+/// Called by every receive path of `NetworkReceiver` (no payload: `In` is not serializable there).
+pub(crate) fn observe_recv<T>(endpoint: ReceiverEndpoint, msg: &NetworkMessage<T>) {
+    dispatch(false, endpoint, msg, |_| None);
+}
